@@ -6,11 +6,11 @@ CONSTANTS
   Brokers = {"r1", "r2", "r3"}
   ConsumerSet = {"c1", "c2"}
   Coords = {"A", "X"}
-  OpKinds = {"CreateStream", "DeleteStream", "Pause", "Resume", "SetReadonly", "ShrinkISR", "ExpandISR", "ChangeLeader", "PublishActivity", "CreateGroup", "JoinGroup", "LeaveGroup", "ChangeCoordinator"}
-  MaxOps = 3
+  OpKinds = {"CreateStream", "DeleteStream", "CreateGroup", "JoinGroup", "LeaveGroup", "ChangeCoordinator"}
+  MaxOps = 4
   MaxSnaps = 1
   MaxRestarts = 1
 INVARIANTS NoTombLive GroupsFine EpochsFine FlagsConsistent
-
-
+PROPERTIES A_RS_GroupAsg
+VIEW MCView
 CHECK_DEADLOCK FALSE
